@@ -699,7 +699,7 @@ def is_enum_class(I, cls):
 
 # ---------------------------------------------------------------------------- namedtuple
 def namedtuple_fields(I, cls):
-    return getattr(cls, "_nt_fields", None)
+    return cls.__dict__.get("_nt_fields")
 
 
 def make_namedtuple(I, st, cls, fields, args, kwargs):
